@@ -73,7 +73,20 @@ def select_for_miri(g: RunGroup, tier: str, seed: int):
     hook = g.hooklog()
     cases = [c for c in g.cases.values() if len(c.decl.variants) <= (28 if tier == "quick" else 300)]
     if tier != "quick":
-        return sorted(cases, key=lambda c: -len(c.decl.variants))
+        # thorough: up to 6 cases of every unsafe-site signature (small ones first, two large ones), capped:
+        # Miri manages ~50 checked events/s per process, so ~1000 cases is about half an hour on 16 cores
+        by_sig = {}
+        for c in cases:
+            by_sig.setdefault(site_signature(c, hook.get(c.id, {}).get("resolved")), []).append(c)
+        picks = []
+        for sig, lst in sorted(by_sig.items(), key=lambda kv: repr(kv[0])):
+            lst.sort(key=lambda c: (len(c.decl.variants), c.id))
+            small = [c for c in lst if len(c.decl.variants) <= 40]
+            k = seed % max(1, len(small) - 3) if len(small) > 4 else 0
+            picks.extend(small[k:k + 4])
+            picks.extend(lst[-2:] if len(lst) > 6 else [])
+        picks = list({c.id: c for c in picks}.values())[:1100]
+        return sorted(picks, key=lambda c: -len(c.decl.variants))
     # quick: the cheapest case of every distinct unsafe-site signature, rotated by the seed
     by_sig = {}
     for c in cases:
